@@ -7,11 +7,12 @@ for id in $ids; do
   wt=/tmp/vfr.$id.$$
   git -C /repo worktree add -q --detach "$wt" HEAD || continue
   if git -C "$wt" apply "/verif/seeded/$id/patch.diff"; then
-    VERIF_REPO="$wt" ./check "$id" --tier quick >/tmp/vfr.$id.out 2>/dev/null </dev/null; rc=$?
+    prop=${id%%-*}
+    VERIF_REPO="$wt" ./check "$prop" --tier quick >/tmp/vfr.$id.out 2>/dev/null </dev/null; rc=$?
     echo "SEED $id quick_exit=$rc $(grep -c VIOLATION /tmp/vfr.$id.out) violation lines"
   else
     echo "SEED $id patch-does-not-apply"
   fi
   git -C /repo worktree remove --force "$wt"
-  rm -f /verif/replays/$id-*.json
+  rm -f /verif/replays/${id%%-*}-*.json
 done
